@@ -62,7 +62,7 @@ pub fn run(ctx: &mut Ctx) {
     for k in 0..n {
         let idx = k * ctx.nshards + ctx.shard;
         if !ctx.begin_case(idx, "history-with-restore") { continue; }
-        let cfg = HistCfg { close_tag_draws: true, faults_max: 1, restore: true, payments: if ctx.thorough() { ctx.prng.gen_range(2..=10) } else { ctx.prng.gen_range(2..=4) }, boundary_balances: ctx.prng.gen_range(0..2) == 0, valid_bias: true };
+        let cfg = HistCfg { ping_pong: false, close_tag_draws: true, faults_max: 1, restore: true, payments: if ctx.thorough() { ctx.prng.gen_range(2..=10) } else { ctx.prng.gen_range(2..=4) }, boundary_balances: ctx.prng.gen_range(0..2) == 0, valid_bias: true };
         // the two merchants take turns as the channel's merchant: one thread serves histories (and close checks) under both
         let ok = run_history(ctx, &worlds[k % 2], &worlds[1 - k % 2], &cfg);
         ctx.count(if ok { "history:complete" } else { "history:stopped-early" });
